@@ -28,7 +28,7 @@ type Config struct {
 	Kind         string `json:"kind"`
 	JSON         bool   `json:"json,omitempty"`          // streamable: JSONResponse
 	Store        bool   `json:"store,omitempty"`         // streamable: MemoryEventStore
-	Subset       string `json:"subset,omitempty"`        // inmem/pipe: "", "legacy", "legacy-old" (server transport advertises a subset via ProtocolVersionSupporter)
+	Subset       string `json:"subset,omitempty"`        // inmem/pipe: "", "legacy", "legacy-old", "none" (server transport advertises a subset via ProtocolVersionSupporter)
 	NoStandalone bool   `json:"no_standalone,omitempty"` // streamable client: DisableStandaloneSSE
 	// EmptySessionID (stateful streamable only) asks the caller to configure ServerOptions.GetSessionID to
 	// return "" (documented special case: no Mcp-Session-Id is issued, every request gets an ephemeral session).
@@ -61,6 +61,8 @@ func SubsetSupports(subset, v string) bool {
 		return v < "2026-07-28"
 	case "legacy-old":
 		return v <= "2025-06-18"
+	case "none": // a transport pinned to a revision this SDK does not know: none of the SDK's versions
+		return false
 	}
 	return true
 }
